@@ -40,6 +40,7 @@ def gen_scenario(ctx, k):
         sc.add(f'bus tabchange {tabchange}')
     sc.add(f'start {d} 0', 'quiesce', 'snap s0')
     notices = []
+    repeatable = []
     version = 2
     present = {tuple(a): uid for a, uid in nodes}
     for i in range(rng.randrange(0, 30)):
@@ -47,6 +48,17 @@ def gen_scenario(ctx, k):
         ann = [(0, 0, 0)] + [m.addr[b['id']] for b in cfg['boards'] if m.connected(b['id']) and cfggen.is_interface(b) and m.addr[b['id']][2] == 0]
         r = rng.random()
         conn = [b for b in cfg['boards'] if m.connected(b['id']) and m.addr[b['id']] != (0, 0, 0)]
+        if repeatable and rng.random() < 0.15:
+            # the interface repeats a notice (its acknowledgement came late or was lost), with the same or the next table version: it is
+            # a notice like any other and is acknowledged; the tree stays as it is
+            announcer, t, data = rng.choice(repeatable)
+            data = bytes([version if rng.random() < 0.5 else data[0]]) + data[1:]
+            m.on_uplink(announcer, t, data)
+            j = len(notices)
+            notices.append((announcer, data[0], t))
+            sc.add(f'mark c{j}', up(model.build_msg(announcer, 0, t, data)), 'quiesce', f'snap n{j}')
+            version = (version % 255) + 1
+            continue
         if r < 0.45 and conn:
             b = rng.choice(conn)
             a = m.addr[b['id']]
@@ -87,6 +99,7 @@ def gen_scenario(ctx, k):
             data = bytes([version, rng.randrange(1, 128)]) + bytes([0x00, 0x04, 0x0D, 0xCC, 0xCC, i & 0xFF, 0x02])
             t = C('MSG_NODE_LOST')
         m.on_uplink(announcer, t, data)
+        repeatable[:] = [(announcer, t, data)]          # only the latest notice can be repeated without changing the tree
         j = len(notices)
         notices.append((announcer, version, t))
         sc.add(f'mark c{j}', up(model.build_msg(announcer, 0, t, data)), 'quiesce', f'snap n{j}')
@@ -204,7 +217,7 @@ def evaluate(ctx, r, cfg, nodes, notices, pings, tabchange, meta, hooks=None):
 def run(ctx):
     ctx.rule = ('generated trees (1-6 configured boards, ~half interfaces, nested up to three levels, 0-2 unknown nodes, ~25% of boards absent), optional node-table '
                 'change after the k-th row, then 0-30 node-lost / node-new notices (loss of interfaces with children, re-login at a different address, unknown '
-                'ids); connectivity getters after start and after every notice, ack per notice, in 40 % of the runs two boards swap their addresses and the table is read again (bidib_send_sys_reset), ping per board at the end. non-trivial = distinct scenario '
+                'ids, repeated notices); connectivity getters after start and after every notice, ack per notice, in 40 % of the runs two boards swap their addresses and the table is read again (bidib_send_sys_reset), ping per board at the end. non-trivial = distinct scenario '
                 'with >=1 notice or a tree of depth >= 2')
     ctx.assumptions = ['announcers have address depth <= 2', 'simulated bus node table is updated alongside the scripted notices so that later requests are answered']
     jobs = [gen_scenario(ctx, k) for k in range(ctx.n(200, 8000))]
